@@ -379,6 +379,70 @@ def ob_block_fanout(w, P):
                 w.tid = old
         w.interfere_at = w.int('at', 0, P.get('max_events', 16))
         w.interfere_hook = intruder
+    if P.get('crash'):
+        # the process is killed at a symbolic event inside the sharded block: afterwards the block's writes are all there or none is
+        import os
+        if nops == 2 and int(keys[0]) == int(keys[1]):
+            assume(False)  # two writes of one key: 'all' is the second value only -- the distinct-key case is the subject
+        w.crash_at = w.int('crash_at', 0, P.get('max_events', 24))
+
+        progress = {'writes': 0}
+
+        def body():
+            with fc.transact():
+                for i in range(nops):
+                    fc.set(keys[i], vals[i])
+                    progress['writes'] += 1
+        w.start_events()
+        crashed = False
+        try:
+            if w.is_real:
+                pid = os.fork()
+                if pid == 0:
+                    try:
+                        w.stop_events()
+                        w.pid += 1
+                        for sh in fc._shards:
+                            sh._con
+                        w.in_child = True
+                        w.start_events()
+                        try:
+                            body()
+                        except BaseException:
+                            pass
+                    finally:
+                        os._exit(0)
+                _, status = os.waitpid(pid, 0)
+                crashed = os.WIFSIGNALED(status)
+            else:
+                body()
+        except env.Crash:
+            crashed = True
+        w.recover()
+        w.stop_events()
+        if crashed:
+            flag('crashed')
+        commits_done = sum(1 for (_, kind, d) in w.log if kind == 'sql' and d.startswith('after COMMIT'))
+        if 'fanout-block-kill-between-commits' in P.get('exclude', []) and progress['writes'] == nops and 0 < commits_done < shards:
+            # region of the known finding: the body had finished and the kill fell between the COMMITs of two shards (there is no commit
+            # across shard databases)
+            flag('nontrivial')
+            flag('known_region')
+            return [('C07,C06', 'excluded: known finding fanout-block-kill-between-commits', True)]
+        T1 = snap()
+        done = []
+        for i in range(nops):
+            it = T1.lookup(Cell(INT, int(keys[i])), Cell(INT, 1))
+            done.append(And(it.present, EqI(it.c['value'].cls, INT), EqR(it.c['value'].num, zv(vals[i]))))
+        same = []
+        for it in T0.items:
+            p = T1.lookup(it.c['key'], it.c['raw'])
+            same.append(Implies(it.present, And(p.present, same_cols(p, it, CACHE_COLS))))
+            same.append(Implies(Not(it.present), Not(p.present)))
+        same.append(EqI(T0.count(), T1.count()))
+        flag('nontrivial')
+        return [('C07,C06', 'a sharded transaction block interrupted by a kill took effect on every shard or on none', Or(AndL(same), AndL(done))),
+                ('C07,C08', 'counters match in every shard', AndL(state.inv_table(w.snapshot(sh)) for sh in fc._shards))]
     w.start_events()
     raised = False
     try:
@@ -454,7 +518,7 @@ def jobs(tier):
     pairs = ['setf+delete', 'set+pop', 'setf+setf', 'delete+set', 'pop+setf', 'incr+delete', 'push+pull', 'pull+push']
     for N in Ns:
         for ops in single + pairs:
-            add('ob_block', 'C06,C08', weight=N * (2 if '+' in ops else 1), must=['block_raised', 'block_committed'], N=N, ops=ops, no_cull=True)
+            add('ob_block', 'C06,C08' + (',C10' if 'pull' in ops or 'push' in ops else ''), weight=N * (2 if '+' in ops else 1), must=['block_raised', 'block_committed'], N=N, ops=ops, no_cull=True)
         for ops in ['setf+delete', 'pop+setf', 'set+set']:
             add('ob_block', 'C06,C08', weight=N * 2, must=['block_raised'], N=N, ops=ops, nested=True, no_cull=True)
         add('ob_block', 'C06,C08', weight=N * 3, N=N, ops='setf+pop', policy='least-recently-stored')
@@ -472,4 +536,5 @@ def jobs(tier):
         add('ob_block_files_intruded', 'C06,C14,C08', weight=8, must=['refused_inside', 'block_raised', 'block_committed'], N=1, who=who)
     add('ob_block_fanout', 'C06,C08', weight=8, must=['block_raised', 'block_committed'], nops=2)
     add('ob_block_fanout', 'C06,C14', weight=20, must=['intruded_inside'], nops=1, intrude=True)
+    add('ob_block_fanout', 'C07,C06', weight=30, must=['crashed'], nops=2, crash=True)
     return out
